@@ -38,7 +38,8 @@ func r141(c *Ctx, rule string) {
 	n := 0
 	for _, fn := range c.proxyFuncs() {
 		for _, cs := range callsToName(fn, "os.CreateTemp") {
-			if fname(outer(fn)) == "(*server.Router).writeStateFile" {
+			// (the state file's temporary file: made in the snapshot routine, R12.1's business)
+			if o := fname(outer(fn)); o == "(*server.Router).writeStateFile" || o == "(*server.Router).saveStateSnapshot" {
 				continue
 			}
 			n++
